@@ -157,7 +157,11 @@ def run(ctx):
             cf, ck = rng.choice([(0 * u.Hz, 'QZero'), (-3 * u.MHz, 'QNeg')])
         bw, bk = rate_arg(rng, 'ok' if invalid != 'bw' else rng.choice(['zero', 'neg', 'nan', 'array', 'unit', 'notq']))
         if invalid == 'start':
-            st, sk = rng.choice([(59867.2442234, 'TNotTime'), (Time(['2020-01-01', '2020-01-02']), 'TArray'), ('yesterday', 'TNotTime'), (12, 'TNotTime')])
+            st, sk = rng.choice([(59867.2442234, 'TNotTime'), (Time(['2020-01-01', '2020-01-02']), 'TArray'), ('yesterday', 'TNotTime'), (12, 'TNotTime'),
+                                 (Time(['2020-01-01T00:00:00', '2020-01-02T00:00:00'], format='isot', precision=9), 'TArray'),
+                                 (Time('2020-01-01T00:00:00', format='isot', precision=9) + np.arange(3) * u.s, 'TArray'),
+                                 (Time([58000.5, 58001.5], format='mjd'), 'TArray'),
+                                 (Time([['2020-01-01T00:00:00']], format='isot', precision=9), 'TArray')])
         else:
             st, sk = rng.choice([(None, 'TNone'), (Time('2020-01-01T00:00:00'), 'TScalar'), (Time(58000.5, format='mjd'), 'TScalar')])
         if invalid == 'meta':
@@ -206,7 +210,7 @@ def run(ctx):
         z = X.make_signal(rng, cls, 4)
         attr = rng.choice(['sample_rate', 'start_time', 'meta'] + (['center_freq', 'chan_bw', 'freq_align'] if cls != 'Signal' else []) +
                           (['pol_type'] if cls == 'DualPolarizationSignal' else []))
-        bad = {'sample_rate': [0 * u.Hz, -1 * u.Hz, 1 * u.m, 3.0, np.ones(2) * u.Hz], 'start_time': [5.5, 'x'], 'meta': [3, 'ab'],
+        bad = {'sample_rate': [0 * u.Hz, -1 * u.Hz, 1 * u.m, 3.0, np.ones(2) * u.Hz], 'start_time': [5.5, 'x', Time(['2020-01-01T00:00:00', '2020-01-02T00:00:00'], format='isot', precision=9), Time('2021-01-01T00:00:00', format='isot', precision=9) + np.arange(2) * u.s, Time([58000.5], format='mjd')], 'meta': [3, 'ab'],
                'center_freq': [1 * u.s, 2.0, np.ones(2) * u.Hz], 'chan_bw': [0 * u.Hz, -2 * u.kHz, 1 * u.s, 4],
                'freq_align': ['mid', 3, None, ['center']], 'pol_type': ['x', 0, None, ['linear']]}[attr]
         v = rng.choice(bad)
